@@ -96,11 +96,12 @@ def run(ctx):
         # t>0 branch: size must be 512, t in (224,256)
         ifs = [e for e in sm.effects if e[0] == 'if']
         okt = False
+        tc, tflip = T.canon_cond(ctx.spec_expr('t>0', {'t': A(2)}))
         for e in ifs:
-            inner = [x[1] for x in e[2] if x[0] == 'assert']
+            inner = [x[1] for x in (e[3] if tflip else e[2]) if x[0] == 'assert']
             if ctx.spec_expr('t in (224,256)', {'t': A(2)}) in inner and \
                ctx.spec_expr('size==512', {'size': A(1)}) in inner:
-                okt = e[1] == ctx.spec_expr('t>0', {'t': A(2)})
+                okt = e[1] == tc
         ctx.check('SHA2.t-domain', okt, 'truncated variants are not restricted to size 512 and t in (224,256)', ctx.where(SHA, 'SHA2.__init__'))
     ctx.guard('SHA2 domain', sha2_domain)
 
